@@ -177,6 +177,7 @@ type checkRun struct {
 	solveSec float64
 	wins     map[string]int
 	covers   int
+	coversUnknown int
 }
 
 func selectObligations(fr *FuncResult, prop string) (sel []*Obligation, skipped int) {
@@ -268,16 +269,26 @@ func cmdCheck(args []string) int {
 	}
 	run.solveSec, run.wins = solveAll(run.obls, timeout, confirm)
 	// vacuity: entry and every return of each function must be reachable under its assumptions
+	var allCovers []*Cover
 	for _, fr := range run.results {
-		if vac := solveCovers(fr.Covers, timeout); vac > 0 {
-			for _, c := range fr.Covers {
-				if c.Result.Status == "unsat" {
-					fmt.Printf("VACUOUS %s: unreachable under the contract's assumptions\n", c.Name)
-				}
-			}
-			engineErr = true
+		allCovers = append(allCovers, fr.Covers...)
+	}
+	coverTimeout := 3
+	if *tier == "thorough" {
+		coverTimeout = 20
+	}
+	if vac := solveCovers(allCovers, coverTimeout); vac > 0 {
+		engineErr = true
+	}
+	for _, c := range allCovers {
+		switch c.Result.Status {
+		case "unsat":
+			fmt.Printf("VACUOUS %s: unreachable under the contract's assumptions\n", c.Name)
+		case "sat":
+			run.covers++
+		default:
+			run.coversUnknown++
 		}
-		run.covers += len(fr.Covers)
 	}
 	code := report(run, time.Since(t0).Seconds(), *verbose, *keep, engineErr)
 	return code
@@ -425,6 +436,7 @@ func writeEvidence(run *checkRun, total, discharged, knownHits, violations int, 
 			"samples":                  samples,
 			"skipped_other_properties": run.skipped,
 			"cover_points_reachable":   run.covers,
+			"cover_points_inconclusive": run.coversUnknown,
 			"contract_files":           run.prog.contracts.Files,
 			"engine_warnings":          warnings,
 		},
